@@ -152,4 +152,38 @@ def ifaceEqSameType (t : GV.Spec.GoComparable.Ty) : Option Bool := if tyComparab
 /-- `m[k] = v` with `k` an interface value of dynamic type `t`: `$ifaceKeyFor` panics iff `!c.comparable` (types.js:41-50) -/
 def ifaceKeyFor (t : GV.Spec.GoComparable.Ty) : Option Unit := if tyComparable t then some () else none
 
+/-! ### assertions to interface types: the emitted code and `$assertType` -/
+
+inductive Dyn | nil | val (typ : Nat) (methods : List Nat)
+  deriving DecidableEq, Repr
+
+/-- what the compiler emits for `x.(I)` / `v, ok := x.(I)` -/
+inductive AssertCode
+  | assertType (I : List Nat) (tuple : Bool)   -- `$assertType(x, I)` / `$assertType(x, I, true)`
+  | identity (tuple : Bool)                    -- `x` / `[x, true]` (NOT emitted by the code; see `compileAssertSkipImplied`)
+  deriving DecidableEq, Repr
+
+/-- compiler/expressions.go `*ast.TypeAssertExpr` (lines 797-805): `$assertType(%e, %s[, true])` for every asserted
+    type; `static` (the method set of the operand's static interface type) is not consulted. -/
+def compileAssert (_static I : List Nat) (tuple : Bool) : AssertCode := .assertType I tuple
+
+/-- the "optimisation" that skips the check when the static type already implements I — NOT what the code does -/
+def compileAssertSkipImplied (static I : List Nat) (tuple : Bool) : AssertCode :=
+  if I.all (fun m => static.contains m) then .identity tuple else .assertType I tuple
+
+inductive AssertRes | value (d : Dyn) | tuple (d : Dyn) (ok : Bool) | panic
+  deriving DecidableEq, Repr
+
+/-- `$assertType(value, type, returnTuple)` for an interface `type` (types.js:725-790): `value === $ifaceNil` → not ok;
+    otherwise ok iff every method of the interface is in `$methodSet(value.constructor)`; not ok → `[zero, false]`
+    or `$panic(new TypeAssertionError…)`; ok → the value itself (or `[value, true]`). -/
+def runAssert : AssertCode → Dyn → AssertRes
+  | .assertType _ false, .nil => .panic
+  | .assertType _ true, .nil => .tuple .nil false
+  | .assertType I tup, .val t ms =>
+    if I.all (fun m => ms.contains m) then (if tup then .tuple (.val t ms) true else .value (.val t ms))
+    else (if tup then .tuple .nil false else .panic)
+  | .identity false, d => .value d
+  | .identity true, d => .tuple d true
+
 end GV.Checks
